@@ -50,22 +50,25 @@ func (st *stack) batchesTerm() string {
 }
 
 // finish: final drain (unless the server was stopped), wait for quiescence, snapshot.
-func (st *stack) finish(finalDrain bool) (closed []int, final bool) {
+// fdrain reports whether the DrainSends call issued in the final quiescent state
+// (no deadline besides a 5 s safety cap) returned nil.
+func (st *stack) finish(finalDrain bool) (closed []int, final, fdrain bool) {
+	fdrain = true
 	if finalDrain && !st.stopped.Load() {
-		st.drain(0)
+		fdrain = st.drainCap(5 * time.Second)
 	}
 	final = true
-	if !st.waitHandled(20 * time.Second) {
-		// the pipeline did not finish the accepted work: report the incomplete
-		// history as final so that the monitor flags it
-		final = true
+	handled := st.waitHandled(10 * time.Second)
+	if finalDrain && !st.stopped.Load() && !fdrain && handled {
+		// everything is handled now: the drain must be able to finish
+		fdrain = st.drainCap(3 * time.Second)
 	}
 	for i := range st.conns {
 		if st.connClosed(i) {
 			closed = append(closed, i+1)
 		}
 	}
-	return closed, final
+	return closed, final, fdrain
 }
 
 func (st *stack) geometry() (workers, shards, capacity, shardCap int) {
@@ -127,7 +130,7 @@ func runConc(in input) vh.Result {
 		}(t)
 	}
 	wg.Wait()
-	closed, final := st.finish(true)
+	closed, final, fdrain := st.finish(true)
 	cfg, _ := st.cfgTerm()
 	workers, _, _, _ := st.geometry()
 	hist := st.histTerm(closed)
@@ -210,7 +213,7 @@ func runConc(in input) vh.Result {
 	}
 	return vh.Result{
 		Coq: vh.App("C28Case", vh.App("KConc", cfg, vh.N(uint64(workers)), vh.N(uint64(core.VerifC28Consts())),
-			vh.B(final), hist, batches, vh.N(uint64(r.maxDepth)))),
+			vh.B(final), vh.B(fdrain), hist, batches, vh.N(uint64(r.maxDepth)))),
 		Obs: map[string]any{"sends": len(r.sends), "accepted": nAcc, "rejected": nRej, "batches": len(r.batches),
 			"drains": fmt.Sprint(r.drains), "closed": closed, "max_depth": r.maxDepth},
 		Class:   "conc," + mode + "," + strings.Join(flags, "+"),
